@@ -490,6 +490,9 @@ def all_ctx_ids(G):
     return [s.path for s in G.all_spaces()]
 
 
+ODD_ARGS = [False]      # switch (set by C01): subscription with defaults left out, tuple-like argument values
+
+
 def gen_query(draw, G, sids=None):
     """["eval", sid, name, args, kwargs, style] on some cells of the model"""
     sids = sids or all_ctx_ids(G)
@@ -511,8 +514,16 @@ def gen_query(draw, G, sids=None):
     style = draw(st.sampled_from(["()", "()", "kw", "[]", "value"]))
     if style == "value" and params:
         style = "()"
-    if style == "[]" and (k != len(params) or k == 0):
+    if style == "[]" and ((k != len(params) and not ODD_ARGS[0]) or k == 0):
         style = "()"
+    if ODD_ARGS[0] and args and style != "kw" and draw(st.integers(0, 7)) == 0:
+        # an argument that is a tuple or an instance of a tuple subclass (one argument, never unpacked)
+        j = draw(st.integers(0, len(args) - 1))
+        v = [draw(st.integers(0, 2)), draw(st.integers(0, 2))]
+        if draw(st.booleans()) or (style == "[]" and len(args) == 1):
+            args[j] = {"nt": v}
+        else:
+            args[j] = v
     if style == "kw":
         if not args:
             style = "()"
